@@ -20,7 +20,11 @@ CLAIMED = {
          "chain = object machine is itself a theorem: Rx.Sim.stdOp_sim (one operator) and Rx.Chain.chain_sim (chains of ANY length, any well-encoded "
          "kernels, any ready world: machine log = chainRun); time_interval / timestamp (values abstracted) in C02c; window_with_count / group_by (items are "
          "observables: global (subscriber, event) traces) in C02d: window_trace, window_root, window_inner, group_root, group_inner - the pure machines of the two "
-         "operators' closures equal the per-subscriber ReactiveX characterisation; machine = those pure machines is a per-run differential check.",
+         "operators' closures equal the per-subscriber ReactiveX characterisation; machine = those pure machines is a per-run differential check. CREATION "
+         "FUNCTIONS on the machine (SimCreate.lean): stdOp_sim_just / _empty / _error / _fromIter / _range / _never - for every well-encoded kernel and any ready "
+         "world the machine run of stdOp K directly over the creation function equals K.run of the stream it denotes (any items, start, count, payload); "
+         "repeat / interval under any operator: Rx.Sim.stdOp_sim_repeat / _interval. The case language also has the scheduler-based sources and operators over "
+         "the DEFAULT scheduler (interval_d, timer_d, observe_on_d, subscribe_on_d), delay(0), endless iterators, empty source lists.",
          "§5 C02", "Lean 4 proof: kernel = list specification by induction, machine = kernel chain by simulation (chain_sim) + per-run four-way differential correspondence"),
  "C04": ("Theorems Rx.C04.* (C04k: error passthrough for every non-handler kernel, same payload, terminal last, items before the error delivered; "
          "C04r: retry/retry_when/on_error_resume_next equal their list specs, subscription counts exact; demat_mat). REFINEMENT (C04Ref*.lean): the object "
@@ -54,16 +58,22 @@ CLAIMED = {
          "§5 C03", "Lean 4 proof: history machines = list specs by induction, machine refines history machines (ten operators) + per-run three-way differential correspondence"),
  "C06": ("Theorems Rx.C06.*: (kernel layer) every single-source kernel that ends its downstream while being fed has cancelled its upstream, for all inputs; "
          "(machine layer, from Rx.Sim.stdOp_sim_cancel) in the object machine - StreamController transliterated call by call - the observer an operator handed "
-         "to its source is unsubscribed exactly when the kernel semantics says cancelled, from ANY ready start world; take/take_while stop an endless producer. "
+         "to its source is unsubscribed exactly when the kernel semantics says cancelled, from ANY ready start world; take/take_while stop an endless producer; for the POLLING producers themselves (repeat, interval over the default scheduler) "
+         "Rx.Sim.stdOp_sim_repeat / stdOp_sim_interval / take_repeat / take_interval (SimInterval.lean): for every kernel, world and loop bound the machine run is "
+         "the kernel run over the producer's prefix and the producer has stopped once the kernel cancelled (independent of the bound that stands for endless). "
          "Multi-input teardown is covered by the history machines of C03 (per-input cancellation) and by exploration. Tie: probed sources recording "
          "is_subscribed before every emission, subject observer counts, every terminating cause of the statement (incl. connectables and two hot inputs that keep "
-         "emitting after the operator's decision); TornDown predicate on implementation traces. One known finding (F18: ref_count / replay over a synchronous "
+         "emitting after the operator's decision; closures given to operators that end the subscription when called); TornDown predicate on implementation "
+         "traces; CONCURRENT part: a subject, or ref_count / replay over it, behind timeout / debounce / delay / observe_on / subscribe_on / sample / take_until(timer) "
+         "under seeded schedules in virtual time - after every subscription ended by itself no subject holds an observer. One known finding (F18: ref_count / replay over a synchronous "
          "source, last subscriber leaving during the connecting subscribe) is reported as KNOWN-FINDING, matched by call site.",
          "§5 C06", "Lean 4 proof: simulation theorem machine = kernel semantics incl. cancellation + per-run correspondence on probed sources"),
  "C08": ("Theorems Rx.Queue.* (C08.lean, 21 main theorems) on the lock-level LTS of async_function_queue.rs for any number of posters, any programs, tasks "
          "that post/abort from inside, all interleavings: one_at_a_time, at_most_once, fifo, partition, no_take_after_abort (no pop after abort; at most one "
          "task already popped may still start - the strict reading is proved false of the code and is not what the property demands), worker_exits "
-         "(ranking), no_lost_wakeup, progress (ranking), default_scheduler_sync. Tie: every explored schedule of the real scheduler is replayed step by "
+         "(ranking), no_lost_wakeup, progress (ranking), default_scheduler_sync; C08D.lean: on model A posting to the default scheduler IS running the task "
+         "(post_is_run, post_nested, timerD_eq_just, subscribeOnD_eq_observeOnD). Tie for the default-scheduler clause: (dpost n) steps of the sequential harness "
+         "(each task records that it runs on the posting thread before post returns) and default-scheduler pipelines, compared with model A. Tie for the queue: every explored schedule of the real scheduler is replayed step by "
          "step through the LTS (co-simulation) and the model's FIFO order is compared with the tasks' own start stamps.",
          "§5 C08", "Lean 4 proof: inductive invariants + ranking functions over an n-thread lock-level LTS + co-simulation of explored schedules"),
  "C09": ("Theorems Rx.Handoff.* (C09.lean) on the LTS of observe_on / subscribe_on over an atomic FIFO channel (source thread, worker, optional unsubscriber; "
@@ -114,7 +124,8 @@ CLAIMED = {
          "§5 C15", "Lean 4 proof (virtual-time LTSs, partial) + co-simulation (linearisability) of explored schedules + exploration in virtual time with thread accounting"),
  "C16": ("partial: Theorems Rx.Timed.* (C16.lean) in discrete virtual time, all periods and gap scripts, all interleavings within an instant: interval_ticks, "
          "timer_once, delay_times (order kept, hand-over d after receipt; delays accumulate because the source thread sleeps), timeout_exact (no ties), "
-         "timeout_never_fires_on_slow_consumer (handling times of the consumer), debounce_subsequence, sample_subsequence. Tie: the real operators on the "
+         "timeout_never_fires_on_slow_consumer (handling times of the consumer), debounce_subsequence, sample_subsequence; on model A (SimInterval.lean): "
+         "take_interval - interval over the default scheduler under take(n) delivers exactly 0..n-1 and complete and the loop stops, for every n >= 1. Tie: the real operators on the "
          "facade's virtual clock; the expected (instant, event) lists are computed BY THE LEAN MODEL (Rx.Timed.expectedLine = the lists the theorems speak "
          "about) for fixed and random gap / handling scripts and compared exactly; PLUS co-simulation of the six LTSs (Timeout, Delay, Interval, Timer, "
          "Debounce, Sample): every explored schedule, including deliberate ties, is checked for linearisability against `step` with the recorded records "
